@@ -2,7 +2,6 @@ package rules
 
 import (
 	"fmt"
-	"go/ast"
 	"go/constant"
 	"go/types"
 	"regexp"
@@ -13,7 +12,6 @@ import (
 
 	"sbpfcheck/flow"
 	"sbpfcheck/load"
-	"sbpfcheck/tables"
 )
 
 func init() {
@@ -294,67 +292,109 @@ func valueOf(in ssa.Instruction) ssa.Value {
 	return v
 }
 
+// checkProfileLiteral: the seccomp.Policy value that the YAML emitter marshals says default errno, and has exactly one
+// group, which allows the names handed to the emitter and carries no conditional entries.  Decided on the stores that
+// build the value (go/ssa), so it does not matter whether it is written as one nested literal or assembled from locals.
 func checkProfileLiteral(e *Env, p *load.Program) {
 	r := e.R
-	pk := p.Pkgs[load.PkgProfiler]
 	or := e.Oracle()
-	var fd *ast.FuncDecl
-	for _, f := range pk.Syntax {
-		for _, d := range f.Decls {
-			if x, ok := d.(*ast.FuncDecl); ok && x.Name.Name == "writeProfileConfig" {
-				fd = x
+	// the emitter: a function with a []string parameter that ends up in the Names of a SyscallGroup
+	var fn *ssa.Function
+	var names *ssa.Parameter
+	for f, k := range profileEmitters(p) {
+		for _, ref := range *f.Params[k].Referrers() {
+			if st, ok := ref.(*ssa.Store); ok {
+				if fa, ok := st.Addr.(*ssa.FieldAddr); ok && fieldName(fa) == "Names" {
+					fn, names = f, f.Params[k]
+				}
 			}
 		}
 	}
-	if fd == nil {
-		r.Unknown("E4.profile", "writeProfileConfig", "", "not found")
+	if fn == nil {
+		r.Unknown("E4.profile", "writeProfileConfig", "", "no function stores a []string parameter into the Names of a syscall group")
 		return
 	}
-	var param types.Object
-	for _, f := range fd.Type.Params.List {
-		for _, n := range f.Names {
-			if st, ok := pk.TypesInfo.TypeOf(f.Type).Underlying().(*types.Slice); ok && types.Identical(st.Elem(), types.Typ[types.String]) {
-				param = pk.TypesInfo.Defs[n]
+	key := load.FuncName(fn)
+	// every store into a field of a seccomp.Policy / seccomp.SyscallGroup in this function
+	type fieldStore struct {
+		st    *ssa.Store
+		field string
+		owner string
+		base  ssa.Value
+	}
+	var stores []fieldStore
+	for _, b := range fn.Blocks {
+		for _, in := range b.Instrs {
+			st, ok := in.(*ssa.Store)
+			if !ok {
+				continue
+			}
+			fa, ok := st.Addr.(*ssa.FieldAddr)
+			if !ok {
+				continue
+			}
+			ot := fa.X.Type().Underlying().(*types.Pointer).Elem()
+			switch {
+			case isNamed(ot, load.PkgRoot, "Policy"):
+				stores = append(stores, fieldStore{st, fieldName(fa), "Policy", fa.X})
+			case isNamed(ot, load.PkgRoot, "SyscallGroup"):
+				stores = append(stores, fieldStore{st, fieldName(fa), "SyscallGroup", fa.X})
 			}
 		}
 	}
-	found := false
-	ast.Inspect(fd.Body, func(n ast.Node) bool {
-		cl, ok := n.(*ast.CompositeLit)
-		if !ok || !isNamed(pk.TypesInfo.TypeOf(cl), load.PkgRoot, "Policy") {
-			return true
-		}
-		found = true
-		sl := tables.AsStructLit(pk, cl)
-		da, _ := tables.Uint64(tables.ConstOf(pk, sl.Fields["DefaultAction"]))
-		r.Check(sl.Fields["DefaultAction"] != nil && da == or.Consts["SECCOMP_RET_ERRNO"], "E4.profile", "writeProfileConfig/DefaultAction", p.Pos(cl.Pos()), "default action is errno", fmt.Sprintf("the emitted profile's default action is %#x, want errno (0x50000): unlisted syscalls would not be answered with errno", da))
-		groups, _ := ast.Unparen(sl.Fields["Syscalls"]).(*ast.CompositeLit)
-		if groups == nil || len(groups.Elts) != 1 {
-			r.Bad("E4.profile", "writeProfileConfig/groups", p.Pos(cl.Pos()), "the profile literal does not have exactly one group")
-			return false
-		}
-		gcl, _ := groups.Elts[0].(*ast.CompositeLit)
-		if gcl == nil {
-			r.Unknown("E4.profile", "writeProfileConfig/groups", p.Pos(cl.Pos()), "group element is not a literal")
-			return false
-		}
-		gf := map[string]ast.Expr{}
-		for _, el := range gcl.Elts {
-			if kv, ok := el.(*ast.KeyValueExpr); ok {
-				gf[kv.Key.(*ast.Ident).Name] = kv.Value
-			}
-		}
-		ga, _ := tables.Uint64(tables.ConstOf(pk, gf["Action"]))
-		r.Check(gf["Action"] != nil && ga == or.Consts["SECCOMP_RET_ALLOW"], "E4.profile", "writeProfileConfig/group-action", p.Pos(gcl.Pos()), "the group's action is allow", fmt.Sprintf("the group's action is %#x, want allow", ga))
-		id, _ := ast.Unparen(gf["Names"]).(*ast.Ident)
-		r.Check(id != nil && pk.TypesInfo.Uses[id] == param && param != nil, "E4.profile", "writeProfileConfig/group-names", p.Pos(gcl.Pos()), "the group's names are the list parameter", "the group's Names are not the list handed to the emitter")
-		_, hasCond := gf["NamesWithCondtions"]
-		r.Check(!hasCond, "E4.profile", "writeProfileConfig/no-conditions", p.Pos(gcl.Pos()), "no conditional entries", "the profile literal carries conditional entries")
-		return false
-	})
-	if !found {
-		r.Unknown("E4.profile", "writeProfileConfig/literal", p.Pos(fd.Pos()), "no seccomp.Policy literal")
+	constOf := func(v ssa.Value) (uint64, bool) {
+		k, ok := flow.ConstInt(v)
+		return uint64(uint32(k)), ok
 	}
+	nDefault, nAction, nNames, nCond, nSyscalls := 0, 0, 0, 0, 0
+	groups := map[ssa.Value]bool{}
+	policies := map[ssa.Value]bool{}
+	for _, fs := range stores {
+		switch fs.owner + "." + fs.field {
+		case "Policy.DefaultAction":
+			nDefault++
+			policies[fs.base] = true
+			da, ok := constOf(fs.st.Val)
+			r.Check(ok && da == or.Consts["SECCOMP_RET_ERRNO"], "E4.profile", key+"/DefaultAction", p.Pos(fs.st.Pos()), "default action is errno", fmt.Sprintf("the emitted profile's default action is %#x, want errno (0x50000): unlisted syscalls would not be answered with errno", da))
+		case "Policy.Syscalls":
+			nSyscalls++
+			policies[fs.base] = true
+			// a slice literal with exactly one element
+			n := int64(-1)
+			if sl, ok := fs.st.Val.(*ssa.Slice); ok {
+				if al, ok := sl.X.(*ssa.Alloc); ok {
+					if at, ok := al.Type().Underlying().(*types.Pointer).Elem().Underlying().(*types.Array); ok && sl.Low == nil && sl.High == nil {
+						n = at.Len()
+					}
+				}
+			}
+			r.Check(n == 1, "E4.profile", key+"/groups", p.Pos(fs.st.Pos()), "the profile has exactly one group", fmt.Sprintf("the profile literal does not have exactly one group (slice literal of length %d)", n))
+		case "SyscallGroup.Action":
+			nAction++
+			groups[fs.base] = true
+			ga, ok := constOf(fs.st.Val)
+			r.Check(ok && ga == or.Consts["SECCOMP_RET_ALLOW"], "E4.profile", key+"/group-action", p.Pos(fs.st.Pos()), "the group's action is allow", fmt.Sprintf("the group's action is %#x, want allow", ga))
+		case "SyscallGroup.Names":
+			nNames++
+			groups[fs.base] = true
+			r.Check(fs.st.Val == ssa.Value(names), "E4.profile", key+"/group-names", p.Pos(fs.st.Pos()), "the group's names are the list parameter", "the group's Names are not the list handed to the emitter")
+		case "SyscallGroup.NamesWithCondtions":
+			nCond++
+		}
+	}
+	r.Check(nDefault == 1 && nSyscalls == 1 && len(policies) == 1, "E4.profile", key+"/literal", p.Pos(fn.Pos()), "one seccomp.Policy value is built, with a default action and a group list",
+		fmt.Sprintf("expected one seccomp.Policy value with one DefaultAction and one Syscalls assignment (found %d policies, %d / %d assignments)", len(policies), nDefault, nSyscalls))
+	r.Check(nAction == 1 && nNames == 1 && len(groups) == 1, "E4.profile", key+"/one-group", p.Pos(fn.Pos()), "one syscall group is built, with an action and the names",
+		fmt.Sprintf("expected one syscall group with one Action and one Names assignment (found %d groups, %d / %d assignments)", len(groups), nAction, nNames))
+	r.Check(nCond == 0, "E4.profile", key+"/no-conditions", p.Pos(fn.Pos()), "no conditional entries", "the profile literal carries conditional entries")
+}
+
+func fieldName(fa *ssa.FieldAddr) string {
+	st, ok := fa.X.Type().Underlying().(*types.Pointer).Elem().Underlying().(*types.Struct)
+	if !ok {
+		return ""
+	}
+	return st.Field(fa.Field).Name()
 }
 
 func checkProfileTemplate(e *Env, p *load.Program) {
